@@ -166,6 +166,8 @@ pub(crate) fn memo_macro(args: TokenStream, item: TokenStream) -> TokenStream {
                 #param_ids_blocks
             )*
             let derived_node_id = ::pico::DerivedNodeId::new(#fn_hash.into(), param_ids);
+            #[cfg(isographlabs_isograph_verif)]
+            ::pico::verif::register_memo_identity(#fn_hash, concat!(module_path!(), "::", #fn_name));
             let did_recalculate = ::pico::execute_memoized_function(
                 #db_arg,
                 derived_node_id,
